@@ -23,6 +23,7 @@ type Grammar struct {
 	Fills       []string // what may be put into each gap (start, between tokens, end)
 	SpacedLen   int      // token strings up to this length get every fill assignment
 	Lookaheads  []int    // nil = all six
+	Mapper      bool     // the parser gets a Map option that lengthens the value of Ident tokens "c"
 }
 
 func (gr *Grammar) Key() string { return gr.Family + " :: " + gr.Root.Source() }
@@ -490,7 +491,7 @@ func setPositions(p *g.Prod, style int) {
 		for _, m := range q.Members {
 			rec(m)
 		}
-		if q.Body != nil {
+		if q.Body != nil && q.Static == nil {
 			q.HasPos, q.HasEndPos, q.HasTokens = true, true, true
 			q.PosStyle = style
 			for _, f := range q.Fields {
@@ -610,6 +611,16 @@ func Positions(t Tier) []*Grammar {
 		func() *g.Node { return capMark(g.Neg(g.Lit("b"))) },
 	}
 	leaves = append(leaves, subLeaves([]int{0, 1, 2, 3, 4, 5}, []byte{0, '?', '*'})...)
+	// a user-implemented (Parseable) production, and a struct production that starts with one
+	parseable := func() *g.Prod {
+		return &g.Prod{Name: "PIdent", Static: g.PIdent{}, Body: g.Cap(0, g.Ref("Ident")), Fields: []g.Field{{Name: "F0", Kind: g.FString}}}
+	}
+	leaves = append(leaves,
+		func() *g.Node { return g.Sub(-1, parseable()) },
+		func() *g.Node { return g.Grp(g.Sub(-1, parseable()), '*') },
+		func() *g.Node {
+			return g.Sub(-1, assign("SP", g.Seq(g.Sub(-1, parseable()), g.Grp(g.Seq(g.Lit("b"), capMark(g.Ref("Ident"))), '?')), schemeOwn))
+		})
 	memo := map[int][]func() *g.Node{}
 	var ts []func() *g.Node
 	ts = append(ts, terms(1, leaves, memo)...)
@@ -617,7 +628,7 @@ func Positions(t Tier) []*Grammar {
 	ts = top(ts)
 	every := 1
 	if t == Quick {
-		every = 5
+		every = 6
 	}
 	var out []*Grammar
 	for style := 0; style < 3; style++ {
@@ -637,6 +648,7 @@ func Positions(t Tier) []*Grammar {
 			gr.SpacedLen = 3
 			gr.Positions = true
 			gr.Lookaheads = []int{1, 2, -1}
+			gr.Mapper = style == 0
 		}
 		out = append(out, grs...)
 	}
